@@ -1784,3 +1784,14 @@ Proof.
     cbn [app starts_with Z.eqb Pos.eqb andb skipn]. unfold parse_uint. rewrite (digits_val_ok 8 (h :: hs) 0 F).
     rewrite Z.mul_0_l, Z.add_0_l. replace (_ <? 2 ^ 64) with true by (symmetry; apply Z.ltb_lt; exact Hv). reflexivity.
 Qed.
+
+(* the Go API for incremental input: the printed text cut at any rune offsets *)
+Lemma cut_pieces_concat : forall cuts prev t, concat (cut_pieces cuts prev t) = t.
+Proof.
+  induction cuts as [|c r IH]; intros prev t; cbn [cut_pieces concat]; [apply app_nil_r|].
+  rewrite IH. apply firstn_skipn.
+Qed.
+
+Theorem read_print_cut : forall is_print v fuel cuts, dat is_print false v -> (vsize v + 3 <= fuel)%nat ->
+  observe (parse_pieces true false fuel (cut_pieces cuts 0 (print is_print v))) = (StDone, [to_sexp v]).
+Proof. intros. apply (read_print_data_pieces is_print v); auto. apply cut_pieces_concat. Qed.
